@@ -375,3 +375,64 @@ Definition amount_unfixed (f : flow) (c : cfg) (aux n : Z) : Z :=
 
 (* a configuration the code can be in: the client's after recvConfig, or the servers' own argument *)
 Definition cfg_ok (c : cfg) : bool := bufsize c <=? Consts.guards_bufsize_clamp.
+
+(* ------------------------------------------------------------------------------------ *)
+(* the sender's chunk buffer: bufferSize from its initial value through the
+   acknowledgements (pipelineRecvAck) to the capacity newSendDataWriter /
+   sendDataWriter.Write hand to make *)
+
+(* time.Since(ack.begin), as far as the code looks at it: below the fast threshold, between the
+   thresholds, or at least the slow threshold with chunkTime/time.Second = secs *)
+Inductive gd_chunk_time := GdFast | GdMid | GdSlow (secs : Z).
+Record gd_ack := { ga_len : Z; ga_time : gd_chunk_time }.
+
+Definition gd_min64 (a b : Z) : Z := if a <? b then a else b.
+Definition gd_is_fast (t : gd_chunk_time) : bool := match t with GdFast => true | _ => false end.
+
+(* one acknowledgement whose length matched what was sent, in the branch that looks at the
+   chunk time (ignoreChunkTimeCount <= 0 or still probing; no pause in between).  Go's
+   int64 division truncates: Z.quot. *)
+Definition gd_bufsize_step (maxbuf bs : Z) (a : gd_ack) : Z :=
+  if (ga_len a =? bs) && gd_is_fast (ga_time a) && (bs <? maxbuf)
+  then gd_min64 (gd_wrap64 (bs * Consts.guards_grow_factor)) maxbuf
+  else match ga_time a with
+       | GdSlow k => if ga_len a <=? bs
+                     then (let q := Z.quot bs k in if q <? Consts.guards_min_chunk then Consts.guards_min_chunk else q)
+                     else bs
+       | _ => bs
+       end.
+
+(* every value bufferSize takes: each of them can be the capacity of the next chunk buffer *)
+Fixpoint gd_bufsize_run (maxbuf bs : Z) (l : list gd_ack) : list Z :=
+  match l with
+  | [] => [bs]
+  | a :: r => bs :: gd_bufsize_run maxbuf (gd_bufsize_step maxbuf bs a) r
+  end.
+
+Definition gd_capacities (maxbuf : Z) (l : list gd_ack) : list Z := gd_bufsize_run maxbuf Consts.guards_init_buffer_size l.
+
+(* chunkTime/time.Second of a slow acknowledgement is at least slow_ms/1000 (local clock, not peer data) *)
+Definition gd_ack_ok (a : gd_ack) : bool :=
+  match ga_time a with GdSlow k => Consts.guards_ack_slow_ms / 1000 <=? k | _ => true end.
+
+(* the protocol-1 sender (sendFileData) keeps its own size: doubling under the same condition,
+   back to the initial size after a slow chunk *)
+Definition gd_bufsize_step_v1 (maxbuf bs : Z) (a : gd_ack) : Z :=
+  if (ga_len a =? bs) && gd_is_fast (ga_time a) && (bs <? maxbuf)
+  then gd_min64 (gd_wrap64 (bs * Consts.guards_grow_factor)) maxbuf
+  else match ga_time a with
+       | GdSlow _ => if bs >? Consts.guards_v1_init_bufsize then Consts.guards_v1_init_bufsize else bs
+       | _ => bs
+       end.
+Fixpoint gd_bufsize_run_v1 (maxbuf bs : Z) (l : list gd_ack) : list Z :=
+  match l with
+  | [] => [bs]
+  | a :: r => bs :: gd_bufsize_run_v1 maxbuf (gd_bufsize_step_v1 maxbuf bs a) r
+  end.
+
+(* the same walk with the growth guard written as an inequality test ("!=" for "<"): what a
+   relaxed guard does with a non-positive announced limit *)
+Definition gd_bufsize_step_ne (maxbuf bs : Z) (a : gd_ack) : Z :=
+  if (ga_len a =? bs) && gd_is_fast (ga_time a) && negb (bs =? maxbuf)
+  then gd_min64 (gd_wrap64 (bs * Consts.guards_grow_factor)) maxbuf
+  else bs.
